@@ -122,4 +122,13 @@ def init {M : Type} (cur : Option M) (build : Except BootErr M) : Option M × Bo
     | .error _ => (none, false)
     | .ok m => (setManager none m, true)
 
+/-- a history of `xds.Init` calls: `builds` is what constructing a manager would yield at each call (it depends on the
+environment of that moment); the result is what is installed in the end and what each call reported (`true` = nil error) -/
+def initRun {M : Type} : Option M → List (Except BootErr M) → Option M × List Bool
+  | cur, [] => (cur, [])
+  | cur, b :: bs =>
+    let (cur', ok) := init cur b
+    let (fin, oks) := initRun cur' bs
+    (fin, ok :: oks)
+
 end XdsVerif.Bootstrap
